@@ -78,6 +78,21 @@ func FamilyConc(tier string) []*Scenario {
 	return out
 }
 
+// wakeTwins returns, for each scenario, a twin explored under the second internal scheduling policy (WakeFirst).
+func wakeTwins(scs []*Scenario) []*Scenario {
+	var out []*Scenario
+	for _, sc := range scs {
+		if sc.WakeFirst {
+			continue
+		}
+		tw := cloneScenario(sc)
+		tw.Name += "+wf"
+		tw.WakeFirst = true
+		out = append(out, tw)
+	}
+	return out
+}
+
 func cloneScenario(sc *Scenario) *Scenario {
 	b := sc.JSON()
 	var out Scenario
